@@ -365,6 +365,30 @@ def main(argv):
     return code
 
 
+def outcome_class(impl):
+    """a coarse class of what the real code did (input distribution for the evidence)"""
+    if not isinstance(impl, dict):
+        return "list" if isinstance(impl, list) else "none"
+    if "panic" in impl or "fatal" in impl or "race" in impl:
+        return "crash"
+    if "err" in impl and isinstance(impl["err"], dict):
+        return "err:" + str(impl["err"].get("reason"))
+    if "ok" in impl:
+        return "ok"
+    for k in ("res", "first", "real", "twin"):
+        if isinstance(impl.get(k), dict):
+            return k + ">" + outcome_class(impl[k])
+    if "stage" in impl:
+        return "stage:" + str(impl["stage"])
+    if "steps" in impl:
+        errs = sum(1 for st in impl["steps"] if isinstance(st, dict) and st.get("err"))
+        return "history:%d-steps:%s" % (min(len(impl["steps"]) // 3 * 3, 12), "some-fail" if errs else "all-ok")
+    if "reads" in impl and isinstance(impl["reads"], list):
+        errs = sum(1 for x in impl["reads"] if isinstance(x, dict) and "err" in x)
+        return "reads:" + ("all-ok" if errs == 0 else ("all-err" if errs == len(impl["reads"]) else "mixed"))
+    return "other:" + ",".join(sorted(impl.keys()))[:30]
+
+
 def finish(ev, t0, nviol, mod, aud, facts, recs, kf_lines, notes):
     tier = ev["tier"]
     sigs = set()
@@ -382,9 +406,15 @@ def finish(ev, t0, nviol, mod, aud, facts, recs, kf_lines, notes):
     thms = aud.get("theorems", [])
     discharged = [t for t in thms if all(a in C.ALLOWED_AXIOMS for a in t["axioms"])] if aud.get("built") else []
     dist = {}
+    stream = {}
+    outcomes = {}
     for r in recs:
-        t = r["case"].get("_tag", "untagged").split("/")[0]
+        full = r["case"].get("_tag", "untagged")
+        t = full.split("/")[0]
         dist[t] = dist.get(t, 0) + 1
+        stream[full] = stream.get(full, 0) + 1
+        oc = outcome_class(r.get("impl"))
+        outcomes[oc] = outcomes.get(oc, 0) + 1
     ev["coverage"] = {
         "obligations": max(1, len(thms)),
         "discharged": len(discharged) if aud.get("built") else 0,
@@ -400,7 +430,8 @@ def finish(ev, t0, nviol, mod, aud, facts, recs, kf_lines, notes):
         "exhaustive": bool(getattr(mod, "EXHAUSTIVE", {}).get(tier, False)),
         "status_counts": {s: sum(1 for r in recs if r.get("status") == s)
                           for s in ("pass", "skip", "known", "violation", "mismatch", "harness")},
-        "generator": {"by_tag": dist},
+        "generator": {"by_tag": dist, "by_stream": dict(sorted(stream.items(), key=lambda kv: -kv[1])[:40]),
+                      "implementation_outcomes": dict(sorted(outcomes.items(), key=lambda kv: -kv[1])[:25])},
         "known_findings_replayed": kf_lines,
         "notes": notes,
     }
